@@ -931,7 +931,7 @@ class IdentitySet(Abstract):
                 self.items.append(x)
 
     def uncertain(self):
-        syms = [x for x in self.items if is_sym(x) and not isinstance(x, SObj)]
+        syms = [x for x in self.items if is_sym(x) and not isinstance(x, SObj) and not getattr(x, 'identity_object', False)]
         return len(syms) >= 2 or (len(syms) == 1 and len(self.items) > 1)
 
     def p_iter(self, it):
